@@ -10,7 +10,7 @@ for d in seeded/$G/; do
   id=$(python3 -c "import json,sys;print(json.load(open('$d/meta.json')).get('property',''))" 2>/dev/null); [ -n "$id" ] || id=${n%%-*}
   ids="$id"; extra=$(python3 -c "import json;print(' '.join(json.load(open('$d/meta.json')).get('also_caught_by',[])))" 2>/dev/null)
   for c in $ids $extra; do
-    out=$(tools/try_seeded.sh $d $c quick 2>&1); rc=$?
+    out=$(VERIF_SHRINK_MS=${VERIF_SHRINK_MS:-4000} tools/try_seeded.sh $d $c quick 2>&1); rc=$?
     cls=$(echo "$out" | grep -a 'violation class' | sed -E 's/.*violation class "([^"]*)" \(([0-9]+) run.*/\1 x\2/' | head -4 | tr '\n' ';')
     printf "%s\t%s\t%s\t%s\n" "$n" "$c" "$rc" "$cls" | tee -a $TMP
   done
